@@ -16,7 +16,7 @@ CHECKS = {
   design="7/C02"),
  "C03": dict(
   technique="runtime window-membership oracle: verdicts of ValidateHOTP compared with the reference set of codes for counters max(0,c-s)..c+s",
-  text="For generated (secret, digits, hash, counter, window) the genuine codes at distance -(s+3)..+(s+3) and hostile strings are submitted; the verdict must equal membership in the independently computed window set (so coincidences cannot alarm); windows > 10 must be refused; nil parameters mean 6/SHA-1/2. Exploration over boundary counters (c<s, 2^31, 2^32, 2^63) and random ones.",
+  text="For generated (secret, digits, hash, counter, window) the genuine codes at distance -(s+3)..+(s+3) and hostile strings (edits, truncations, padding, Unicode digits, bytes sharing bits with the right digit, sign/space look-alikes of leading-zero codes, value+2^32 aliases of 10-digit codes) are submitted; the verdict must equal membership in the independently computed window set (so coincidences cannot alarm); windows > 10 must be refused; nil parameters mean 6/SHA-1/2. Exploration over boundary counters (c<s, 2^31, 2^32, 2^63) and random ones.",
   design="7/C03"),
  "C04": dict(
   technique="runtime window-membership oracle on ValidateTOTP + derivation counting through the HMAC-constructor hook (logical work bound, cut-off at 64)",
@@ -24,7 +24,7 @@ CHECKS = {
   design="7/C04"),
  "C05": dict(
   technique="runtime reference-model monitor for RFC 6287 + HMAC-constructor hook recording the exact message bytes",
-  text="GenerateOCRA is executed for every advertised suite, parser-accepted grammar strings and hand-built configurations (hash x digits x 32 field subsets x formats x password hashes x suite texts) through every suite construction route, with admissible boundary-length inputs; results are compared with an independent RFC 6287 model, repeated with garbage in unselected fields; the hook compares the HMAC message byte for byte with the documented layout; the formatting stage is driven with chosen 31-bit values.",
+  text="GenerateOCRA is executed for every advertised suite, parser-accepted grammar strings and hand-built configurations (hash x digits x 32 field subsets x formats x password hashes x suite texts) through every suite construction route, with admissible boundary-length inputs (also presented as adjacent sub-slices of one shared backing array); results are compared with an independent RFC 6287 model, repeated with garbage in unselected fields; the hook compares the HMAC message byte for byte with the documented layout; the formatting stage is driven with chosen 31-bit values.",
   design="7/C05"),
  "C06": dict(
   technique="runtime differential monitor: ValidateOCRA verdict versus equality with GenerateOCRA's own result on the same data",
@@ -32,11 +32,11 @@ CHECKS = {
   design="7/C06"),
  "C07": dict(
   technique="runtime reference-model monitor on DecodeSecret and all six entry points + HMAC key observation through the hook",
-  text="Every accepted spelling (padding x case x surrounding white space) of byte strings of every length 0..256 must decode to exactly the bytes and give identical results at all generation/validation entry points (the key reaching the HMAC is observed); generated invalid texts (outside-alphabet characters incl. Unicode letters that upper-case into the alphabet, impossible lengths, inner padding) must be rejected.",
+  text="Every accepted spelling (padding x case x surrounding white space) of byte strings of every length 0..256 must decode to exactly the bytes and give identical results at all generation/validation entry points (the key reaching the HMAC is observed); generated invalid texts (every byte value outside the alphabet at interior and end positions, Unicode letters that upper-case into the alphabet, impossible lengths, inner padding) must be rejected.",
   design="7/C07"),
  "C08": dict(
   technique="offline exactly-once checker over a recorded event log: crypto/rand.Reader replaced by a recording position-unique stream; race detector on concurrent histories",
-  text="Histories of RandomSecret calls (sequential and 2..64 goroutines under -race) run against a recording random source; an offline checker shows each secret is upper-case unpadded base32 of exactly 20/32/64 bytes that are contiguous, unmodified stream segments handed out during that call, that no stream position feeds two secrets, that DecodeSecret inverts it, and that all 253 unsupported enum values give (\"\", error).",
+  text="Histories of RandomSecret calls (sequential and 2..64 goroutines under -race) run against a recording random source (position-unique keystream, all-zero and all-0xFF streams, sources that deliver short reads of 1..63 bytes); hand-outs are attributed to calls by goroutine; an offline checker shows each secret is upper-case unpadded base32 of exactly 20/32/64 bytes that are contiguous, unmodified stream segments handed out during that call, that no stream position feeds two secrets, that DecodeSecret inverts it, and that all 253 unsupported enum values give (\"\", error).",
   note="Trusted: crypto/rand.Reader is the OS CSPRNG by default (what is monitored is that the library takes its bytes from it, unmodified, once); Go race detector; reference base32.",
   design="7/C08"),
  "C09": dict(
@@ -67,29 +67,29 @@ CHECKS = {
   design="7/C14"),
  "C15": dict(
   technique="runtime differential monitor: library registry/parser versus an independent strict RFC 6287 suite-name parser; registry exhaustive, grammar enumerated",
-  text="Every advertised name is instantiated and compared field by field with what an independent parser says the name means (list / known-suite test / lookup / registry map must agree); every string of the 1 442 880-string grammar (thorough: all; quick: every 11th + boundaries) must be rejected or accepted with exactly its meaning and report itself as its name; ~350 malformed strings must be rejected.",
+  text="Every advertised name is instantiated and compared field by field with what an independent parser says the name means (list / known-suite test / lookup / registry map must agree); every string of the 1 442 880-string grammar (thorough: all; quick: every 11th + boundaries) must be rejected or accepted with exactly its meaning and report itself as its name; case variants of grammar strings are judged against a case-folding reference in a repeated sequential history (each spelling must report its own name); many-digit numeric fields must be rejected or represented exactly; ~350 malformed strings must be rejected.",
   design="7/C15"),
  "C16": dict(
   technique="runtime round-trip monitor with an independent RFC 3986 decoder of the URL text",
-  text="Generated (issuer, account, secret, digits 0..255, hash, period) sets go through Generate*URL(...).String(); the text is decoded by an independent percent-decoder and by ParseOTPAuthURL(url.Parse(text)); both must return the input (so escape-twice/unescape-twice cannot pass). Hand-assembled URLs with digits/period texts over -2^63..2^64+ must fail or return exactly the number written.",
+  text="Generated (issuer, account, secret, digits 0..255, hash, period) sets go through Generate*URL(...).String(); the text is decoded by an independent percent-decoder and by ParseOTPAuthURL(url.Parse(text)); both must return the input (so escape-twice/unescape-twice cannot pass). Hand-assembled URLs with digits/period texts over -2^63..2^64+ must fail or return exactly the number written; query shapes of real links (&amp;, ';', bad escapes, repeats) are included.",
   design="7/C16"),
  "C17": dict(
   technique="runtime reference-model monitor: helper outputs versus independent encoders, and end-to-end OCRA codes for numeric questions versus the RFC 6287 model",
-  text="Each helper runs on boundary/random 64-bit values and on strings of length 0..300 from digit/hex/sign/letter classes and is compared with an independent encoder (value-exact, or error / documented panic for malformed text); HexInputToOCRA over all 3^5 valid/invalid/empty combinations; decimal questions of every length 1..64 through the helper and GenerateOCRA must equal the RFC value.",
+  text="Each helper runs on boundary/random 64-bit values and on strings of length 0..300 from digit/hex/sign/letter classes and is compared with an independent encoder (value-exact, or error / documented panic for malformed text); HexInputToOCRA over all 3^5 valid/invalid/empty combinations; decimal questions of every length 1..64 plus structured values (sums of few powers of 2/10/16, byte/word aligned) through the helper and GenerateOCRA must equal the RFC value.",
   design="7/C17"),
  "C18": dict(
   technique="black-box differential monitor on the real server binary over loopback: each HTTP response versus the in-process library call with exactly the request's parameters and versus the independent reference model (thorough: also a -race build of the server)",
-  text="The server is built from the working tree and driven with generated well-formed requests to all ten endpoints (fields present/absent, known and unknown digit/hash spellings, raw and structured suites, white space around secrets) from 1..32 client goroutines on reused and fresh connections; codes, verdicts, echoes, suite list/description, URL and secret responses are compared with the library and the reference; generated codes are fed back to the validate endpoints; 'timestamp omitted' is bracketed by the client's clock around the timestamp the server reports.",
+  text="The server is built from the working tree and driven with generated well-formed requests to all ten endpoints (every optional field present/absent at random, known and unknown digit/hash spellings, raw and structured suites, white space around secrets, fields of up to ~100 KiB giving large responses) from 1..32 client goroutines on reused and fresh connections; codes, verdicts, echoes, suite list/description, URL and secret responses are compared with the library and the reference; generated codes are fed back to the validate endpoints; 'timestamp omitted' is bracketed by the client's clock around the timestamp the server reports.",
   note="Trusted: Go net/http client, reference models. The clock is only read to bracket the server-reported timestamp; no latency verdicts.",
   design="7/C18"),
  "C19": dict(
   technique="black-box hostile-input monitor on the real server binary with per-request CPU accounting (/proc/<pid>/stat) and interleaved reference-checked probe requests; liveness restated as bounded progress",
-  text="A seeded shuffle of hostile requests (broken JSON, every field x every JSON type, numbers beyond 64-bit limits, skew/period extremes, unknown/contradictory suites, oversized bodies, every method x path, raw TCP fragments) is sent sequentially (server CPU time attributed per request: > 2 CPU-s is a violation) and on 32 connections; every response must be complete, 2xx only with the endpoint's success object; refused skews must not accept; probes judged by the C18 oracle must stay correct; the process must stay alive. Unbounded 'eventually' is not decidable by a run; a timeout with an idle server is inconclusive.",
+  text="A seeded shuffle of hostile requests (broken JSON, every field x every JSON type, numbers beyond 64-bit limits, skew/period extremes, unknown/contradictory suites, oversized bodies, large echoed fields, every method x path, raw TCP fragments) is sent sequentially (server CPU time attributed per request: > 2 CPU-s is a violation) and on 32 connections; every response must be complete, 2xx only with the endpoint's success object; refused skews must not accept; probes judged by the C18 oracle (including large-response probes in flight with the hostile traffic) must stay correct; a well-formed request left unanswered twice while GET / answers is a violation; the process must stay alive. Unbounded 'eventually' is not decidable by a run; a timeout with an idle server is inconclusive.",
   note="Trusted: Linux /proc CPU accounting (100 Hz ticks), Go net/http client. Work is measured in CPU time, not latency, so machine load cannot raise an alarm.",
   design="7/C19"),
  "C20": dict(
   technique="black-box differential monitor on the freshly built wasm module under Node 20 (through globalThis and through the package's exported object, by name) + native overlay build of the binding's Go sources",
-  text="otp.wasm is built from the working tree into a scratch copy of otp-js and driven under Node with a generated case list over the property's common domain; answers through both access paths are compared per exported name with the native library and the reference model (codes, verdicts at every window distance, URLs); malformed calls (every argument position x hostile JS values, too few/many arguments, range errors) must return 'error:…' and are followed by a known-answer probe; a thrown exception or missing result (Go runtime died) is a violation. The same Go sources are compiled natively through an overlay for a 10x larger differential.",
+  text="otp.wasm is built from the working tree into a scratch copy of otp-js and driven under Node with a generated case list over the property's common domain; answers through both access paths are compared per exported name with the native library and the reference model (codes, verdicts at every window distance and for hostile code strings, timestamps near the epoch with the native verdict as oracle, URLs); malformed calls (every argument position x hostile JS values, too few/many arguments, range errors) must return 'error:…' and are followed by a known-answer probe; a thrown exception or missing result (Go runtime died) is a violation. The same Go sources are compiled natively through an overlay for a 10x larger differential.",
   note="Trusted: Node 20 + wasm_exec.js of the toolchain, reference models. The committed otp-js/lib/otp.wasm artefact is not what is checked.",
   design="7/C20"),
 }
